@@ -248,6 +248,8 @@ bool_t tmDateIsValid(size_t y, size_t m, size_t d)
 bool_t tmDateIsValid2(const octet date[6])
 {
 	return memIsValid(date, 6) && 
+		date[0] <= 9 && date[1] <= 9 && date[2] <= 9 &&
+		date[3] <= 9 && date[4] <= 9 && date[5] <= 9 &&
 		tmDateIsValid(
 			(size_t)10 * date[0] + date[1] + 2000,
 			(size_t)10 * date[2] + date[3],
